@@ -208,8 +208,10 @@ def fraction_arithmetic(ctx, r, n, dens):
         if isinstance(a, Fraction):
             for nm, f, ef in (("neg", operator.neg, operator.neg), ("abs", abs, abs), ("float", float, float), ("inv", lambda x: x.inv(), lambda x: 1 / x), ("copy", lambda x: x.copy(), lambda x: x),
                               ("**2", lambda x: x**2, lambda x: x**2), ("**-1", lambda x: x**-1, lambda x: x**-1), ("**3", lambda x: x**3, lambda x: x**3), ("**0", lambda x: x**0, lambda x: x**0),
-                              ("**-2", lambda x: x**-2, lambda x: x**-2), ("**-3", lambda x: x**-3, lambda x: x**-3), ("**1", lambda x: x**1, lambda x: x)):  # fmt: skip
-                if nm in ("inv", "**-1", "**-2", "**-3") and ea == 0:
+                              ("**-2", lambda x: x**-2, lambda x: x**-2), ("**-3", lambda x: x**-3, lambda x: x**-3), ("**1", lambda x: x**1, lambda x: x),
+                              # an integral exponent that happens to be typed float is the same exponent
+                              ("**2.0", lambda x: x**2.0, lambda x: x**2), ("**1.0", lambda x: x**1.0, lambda x: x), ("**-1.0", lambda x: x**-1.0, lambda x: x**-1), ("**3.0", lambda x: x**3.0, lambda x: x**3)):  # fmt: skip
+                if nm in ("inv", "**-1", "**-2", "**-3", "**-1.0") and ea == 0:
                     continue
                 ctx.ev()
                 try:
